@@ -47,7 +47,7 @@ def all_queries(n, qmax):
 def run_items(rep, scns, pids, tag, want_events=True):
     items = []
     for scn in scns:
-        tr, why = S.run_scenario(scn, want_events=want_events)
+        tr, why = S.run_scenario(scn, want_events=want_events and not scn.get("allow_asymmetric"))
         if tr is None:
             S.handle_skip(rep, scn, why, pids)
             continue
